@@ -84,7 +84,7 @@ Record cfg := {
   c_manager : bool;      (* caller = marker.Manager (empty once the marker was activated) *)
   c_gov : bool;          (* caller = the module's authority (governance account) *)
   c_govctl : bool;       (* marker.AllowGovernanceControl *)
-  c_allsupply : bool;    (* marker.Supply = caller's balance of the denom *)
+  c_allsupply : bool;    (* marker.Supply (the RECORDED supply) = caller's balance of the denom *)
   c_supply_zero : bool;  (* marker.Supply = 0 (then [c_allsupply] holds for any caller without coins) *)
   c_activated : bool     (* the marker is, or has at some point been, Active (its history, not a
                             stored field; the harness knows it from the lifecycle it drove) *)
@@ -160,6 +160,22 @@ Definition decide_gen (all_supply : cfg -> bool) (c : cfg) (o : op) : outcome :=
       (* to the same status: not "preceding"; Destroyed is only reachable from Cancelled *)
       done (c_gov c && c_govctl c && negb (status_eqb s SDestroyed))
   end.
+
+(** What accountControlsAllSupply reads: the supply RECORDED on the marker (m.GetSupply(); kept in
+    step with the bank only for fixed-supply markers -- mint, burn and the governance supply
+    proposals leave it alone on a floating marker), and the caller's balance.  What the bank says
+    exists ([sf_bank]) is NOT read; a variant comparing the balance with it
+    ([with_supply_circulating]) is refuted in Proofs/MarkerTransferProofs.v. *)
+Record supply_facts := { sf_record : Z; sf_bank : Z; sf_balance : Z }.
+
+Definition with_supply_flags (c : cfg) (all zero : bool) : cfg :=
+  {| c_status := c_status c; c_type := c_type c; c_rights := c_rights c; c_manager := c_manager c;
+     c_gov := c_gov c; c_govctl := c_govctl c; c_allsupply := all; c_supply_zero := zero;
+     c_activated := c_activated c |}.
+Definition with_supply (c : cfg) (sf : supply_facts) : cfg :=
+  with_supply_flags c (Z.eqb (sf_record sf) (sf_balance sf)) (Z.eqb (sf_record sf) 0).
+Definition with_supply_circulating (c : cfg) (sf : supply_facts) : cfg :=
+  with_supply_flags c (Z.eqb (sf_bank sf) (sf_balance sf)) (Z.eqb (sf_bank sf) 0).
 
 Definition decide := decide_gen controls_all_supply.                (* the current code *)
 Definition decide_prefix := decide_gen controls_all_supply_prefix.  (* before fix 374f3de02 *)
